@@ -2,7 +2,7 @@
 from datetime import datetime
 from typing import Any, Optional
 
-from pydantic import BaseModel
+from pydantic import BaseModel, field_serializer
 
 from primaite import getLogger
 from primaite.simulator.network.protocols.icmp import ICMPPacket
@@ -106,6 +106,11 @@ class Frame(BaseModel):
     "The time the Frame was sent from the original source NIC."
     received_timestamp: Optional[datetime] = None
     "The time the Frame was received at the final destination NIC."
+
+    @field_serializer("sent_timestamp", "received_timestamp", when_used="json")
+    def _serialise_timestamp(self, value: Optional[datetime]) -> Optional[str]:
+        """Always write the microsecond field, so that the size of a Frame does not depend on the wall clock."""
+        return None if value is None else value.isoformat(timespec="microseconds")
 
     def decrement_ttl(self):
         """Decrement the IPPacket ttl by 1."""
